@@ -173,7 +173,11 @@ def h_project_grid(ctx):
         vals[tuple(hole)] = float("nan")
     name = cfg.get("name", "field")
     dims = ("northing", "easting")
-    grid = xr.DataArray(vals, coords={"northing": north, "easting": east}, dims=dims, name=name)
+    if cfg.get("transposed"):
+        # stored as (easting, northing) and lazily transposed: same grid, values not C-contiguous
+        grid = xr.DataArray(np.ascontiguousarray(vals.T), coords={"northing": north, "easting": east}, dims=("easting", "northing"), name=name).transpose("northing", "easting")
+    else:
+        grid = xr.DataArray(vals, coords={"northing": north, "easting": east}, dims=dims, name=name)
     a, c = Fraction(cfg["proj"][0]), Fraction(cfg["proj"][1])
     b, d = ctx.real("pb"), ctx.real("pd")
     if not ctx.sym:
@@ -310,7 +314,7 @@ def _aa_globals(cfg):
 
 
 def _cfg_pg(tier, seed):
-    q = [{"shape": (2, 2), "proj": ("2", "3")}, {"shape": (2, 3), "proj": ("1/2", "5"), "oracle_free": 2}]
+    q = [{"shape": (2, 2), "proj": ("2", "3")}, {"shape": (2, 3), "proj": ("1/2", "5"), "oracle_free": 2}, {"shape": (2, 3), "proj": ("3", "2"), "oracle_free": 1, "transposed": True}]
     if tier == "quick":
         return q
     return q + [{"shape": (2, 3), "proj": ("1/2", "5"), "name": None}, {"shape": (2, 3), "proj": ("2", "3"), "hole": (0, 1)}, {"shape": (3, 3), "proj": ("7", "1/3")}]
@@ -331,13 +335,13 @@ HARNESSES = [
     Harness(
         "project_grid_antialias",
         h_project_grid_antialias,
-        lambda tier, seed: [{"shape": (3, 3), "proj": ("2", "3")}] + ([{"shape": (3, 4), "proj": ("1/2", "5")}] if tier == "thorough" else []),
-        bounds="3x3 (quick) / 3x4 (thorough) symbolic grid, affine projection, method='linear', antialias=True (real BlockReduce with block_split by the C08 contract), hull oracle fixed to 'inside'",
+        lambda tier, seed: [{"shape": (3, 3), "proj": ("2", "3")}] if tier == "thorough" else [],
+        bounds="thorough tier only: 3x3 symbolic grid, affine projection, method='linear', antialias=True (real BlockReduce with block_split by the C08 contract), hull oracle fixed to 'inside'",
         stubs=["LinearNDInterpolator -> uninterpreted with f(p_i) = v_i and min(values) <= f <= max(values)", "block_split -> C08 contract", "Delaunay -> oracle"],
         extra_globals=_aa_globals,
         engine={"oneshot": True, "keyed_sqrt": True, "sqrt_pos_axiom": True, "div_elim": True, "timeout_ms": 60000},
         outside="cubic / nearest with antialiasing; OUT-LIB",
-        timeout_s=1200,
+        timeout_s=2400,
     ),
     Harness(
         "convexhull_mask",
